@@ -717,7 +717,7 @@ func (s *c20Schema) checkPKCase(atoms []c20Atom, rows []c20Row, layout []int, c 
 	after := strings.ReplaceAll(pkRec.String(), "\n", " ")
 	kind, why := c20Causes[2], "wrong only after an earlier scan of the same condition rewrote the cached index record"
 	if warm == 0 {
-		kind, why = (&c20Classifier{pkRec: pkRec, mark: mark, kc: kc, set: set, fs: fs, snap: snap}).kind(need, s.nullBoolKey(rows))
+		kind, why = (&c20Classifier{pkRec: pkRec, mark: mark, kc: kc, set: set, fs: fs, snap: snap}).kind(need, s.nullBoolKey(rows), cov)
 	}
 	c20RestoreRec(pkRec, snap)
 	return true, kind,
@@ -1113,7 +1113,7 @@ func (r *c20PKRun) group(recs [][]c20Row, members []int, layout, bounds []int, n
 						if cls == nil {
 							cls = &c20Classifier{pkRec: pkRec, mark: mark, kc: kc, set: set, fs: fs, snap: snap}
 						}
-						kind, _ := cls.kind(need, s.nullBoolKey(recs[m]))
+						kind, _ := cls.kind(need, s.nullBoolKey(recs[m]), cov)
 						r.report(kind, recs[m], layout, ci, tr, set, 0)
 					} else if mutated && need&^cov2 != 0 {
 						r.report(c20Causes[2], recs[m], layout, ci, tr, set, 1)
@@ -1437,10 +1437,12 @@ var c20Causes = []string{
 
 // kind: the smallest set of repairs (reference switches) under which the fragments in need are returned; the
 // violation is filed under the first cause of that set, the whole set goes into the detail text.
-func (c *c20Classifier) kind(need uint16, nullBool bool) (string, string) {
+func (c *c20Classifier) kind(need uint16, nullBool bool, actual uint16) (string, string) {
 	pass := func(i int) bool { cov, ok := c.variant(i); return ok && need&^cov == 0 }
-	if pass(0) {
-		return "pk_fragment_with_match_pruned", "reference recursion does not reproduce the pruning" // unknown cause
+	// the unswitched reference must return exactly what the real scan returned; otherwise the real code does
+	// something the model of the known defects does not explain: unknown cause
+	if cov0, ok0 := c.variant(0); !ok0 || cov0 != actual {
+		return "pk_fragment_with_match_pruned", fmt.Sprintf("the reference recursion (known defects included) returns %s, the real scan %s", c20Bits(cov0), c20Bits(actual))
 	}
 	for _, i := range []int{1, 2, 4, 3, 5, 6, 7} {
 		if pass(i) {
